@@ -144,7 +144,7 @@ pub fn run(ctx: &Ctx) -> usize {
 		violations += 1;
 	}
 	let cfg = cfg_for(ctx);
-	if run_dna(ctx, "dna", ctx.n(4000, 150_000), dna_max(ctx), |dna, counting| check(ctx, &dna_model(dna, &cfg), "dna", counting)).is_some() {
+	if run_dna(ctx, "dna", ctx.n(30_000, 1_500_000), dna_max(ctx), |dna, counting| check(ctx, &dna_model(dna, &cfg), "dna", counting)).is_some() {
 		violations += 1;
 	}
 	violations
